@@ -92,3 +92,40 @@ Qed.
 Lemma partial_origin : forall len o n, with_partial_origin len o n = o.
 Proof. reflexivity. Qed.
 
+
+(* ---------- reassembly: consecutive partial fetches tile the section ---------- *)
+Lemma skipn_add {A} (a b : nat) (l : list A) : skipn (a + b) l = skipn b (skipn a l).
+Proof.
+  revert l. induction a as [|a IH]; intros l; [reflexivity|].
+  destruct l as [|x t]; [cbn; destruct b; reflexivity|]. cbn [Nat.add skipn]. apply IH.
+Qed.
+
+Lemma firstn_add {A} (a b : nat) (l : list A) : firstn (a + b) l = firstn a l ++ firstn b (skipn a l).
+Proof.
+  revert l. induction a as [|a IH]; intros l; [reflexivity|].
+  destruct l as [|x t]; [cbn; destruct b; reflexivity|]. cbn [Nat.add firstn skipn app]. f_equal. apply IH.
+Qed.
+
+(* a client that downloads a section in pieces <o.n> then <o+n.m> holds exactly what one fetch <o.n+m> returns:
+   no byte lost, repeated or shifted at the seam *)
+Lemma partial_chunks_concat : forall lit o n m a b,
+  0 <= o -> 0 <= n -> 0 <= m -> o + n <= max_int64 -> n + m <= max_int64 -> Z.of_nat (length lit) <= max_int64 ->
+  with_partial lit o n = Some a -> with_partial lit (o + n) m = Some b ->
+  with_partial lit o (n + m) = Some (a ++ b).
+Proof.
+  intros lit o n m a b Ho Hn Hm Hon Hnm Hl Ha Hb.
+  rewrite partial_is_slice in Ha by (unfold max_int64 in *; lia).
+  rewrite partial_is_slice in Hb by (unfold max_int64 in *; lia).
+  rewrite partial_is_slice by (unfold max_int64 in *; lia).
+  injection Ha as <-. injection Hb as <-. unfold spec_partial.
+  rewrite (Z2Nat.inj_add n m) by lia. rewrite (Z2Nat.inj_add o n) by lia.
+  rewrite firstn_add, skipn_add. reflexivity.
+Qed.
+
+(* <0.len> (and any longer count) is the whole section *)
+Lemma partial_whole : forall lit n, Z.of_nat (length lit) <= n <= max_int64 ->
+  with_partial lit 0 n = Some lit.
+Proof.
+  intros lit n Hn. rewrite partial_is_slice by (unfold max_int64 in *; lia).
+  unfold spec_partial. cbn [Z.to_nat skipn]. rewrite firstn_all2 by lia. reflexivity.
+Qed.
